@@ -190,6 +190,7 @@ func runFS(m *Machine, st *State) []fsRun {
 }
 
 func checkC20(p *Prog, rp *Report) {
+	defer stateRule(p, rp, "C20-STATE", p.Method("control", "DSC", "Copy"), p.Method("control", "DSC", "Move"), p.Method("control", "DSC", "Remove"), p.Method("control", "Changes", "Copy"), p.Method("control", "Changes", "Move"), p.Method("control", "Changes", "Remove"), p.Func("internal", "Copy"))
 	rp.Explanation = "DSC/Changes Copy, Move, Remove and internal.Copy are interpreted abstractly with os.Stat/Open/Create/Rename/Remove, io.Copy, Close and internal.Copy replaced by oracles that record the effect and fork into success and failure, on handles listing two referenced files. For every path: C20-LAST the control file is touched only after every referenced-file operation succeeded and nothing is touched after it; any failing step returns an error; C20-DEST destinations are dest+\"/\"+Base(source); C20-MOVE the control file of Move is transferred with one rename; C20-HANDLE on success the handle's Filename is the destination path; after a successful Copy or Move a following Remove acts on the new location; C20-SRC before any filesystem effect every listed name is validated and \"\", \".\", \"..\", names with '/', absolute paths and '..' components are refused (table over listed names); C20-HANDLEFIELD the Filename of a DSC/Changes handle is excluded from decoding (control:\"-\"), so a 'Filename:' field in the document cannot redirect the operations; C20-CLEAN in internal.Copy every failure after the destination was created removes it, the destination's close error is returned, the source is closed on every path."
 	rp.NotDecided = "what the kernel does under real faults; that rename/copy preserve bytes; the order in which an inotify watcher observes the calls (follows from C20-LAST only under sequential execution of the calls)."
 	rp.Trusted = []string{"go/types, go/ssa", "os, io, path, path/filepath contracts as modelled in models.go / c20.go"}
